@@ -247,12 +247,13 @@ fn has_consecutive_uppercase(text: &str) -> bool {
                 i += 1;
             }
 
-            let sequence: String = chars[start..i].iter().collect();
+            // Length in characters (the slice below is indexed by character, not by byte)
+            let sequence_len = i - start;
 
-            if sequence.len() >= 2 {
+            if sequence_len >= 2 {
                 // Try to find the longest known acronym from this position
                 let mut found_acronym = false;
-                for len in (2..=sequence.len()).rev() {
+                for len in (2..=sequence_len).rev() {
                     let subseq: String = chars[start..start + len].iter().collect();
                     if acronym_set.is_acronym(&subseq) {
                         found_acronym = true;
